@@ -157,6 +157,7 @@ func c04(c *Ctx) {
 	}
 	o.Plan.Stats["reads_writes_instances"] = len(ioRows)
 	zeroExtendSweep(c)
+	heldRegisterLists(c)
 	c04hw(c, d, ctors, names, opcIndexOf)
 	o.Stage(files...)
 	o.Plan.Rule = "all rows of the form table (x86/zoptab.go dumped through the verif overlay), exhaustively; a sample of rows is written out as cases"
@@ -197,4 +198,57 @@ func zeroExtendSweep(c *Ctx) {
 		}
 	}
 	o.AddCase(Case{Key: "zeroextend:sweep", Desc: "ZeroExtend32BitOutputs over 156 distinct 32-bit destinations, three visits each", Input: map[string]any{"registers": len(regs)}, Nontrivial: true})
+}
+
+// heldRegisterLists: the read and write sets of several instructions, held at once and extended by the caller
+// (a pass that adds the stack pointer to the writes of PUSH/POP, say): what InputRegisters/OutputRegisters
+// returned for one instruction is a value of its own, appending to it cannot change another one's.
+func heldRegisterLists(c *Ctx) {
+	o := c.Out
+	var is []*ir.Instruction
+	add := func(i *ir.Instruction, err error) {
+		if err == nil {
+			is = append(is, i)
+		}
+	}
+	coll := reg.NewCollection()
+	for k := 0; k < 40; k++ {
+		a, b := coll.GP64(), coll.GP64()
+		add(x86.POPQ(reg.RAX))
+		add(x86.MOVQ(reg.RAX, reg.R12))
+		add(x86.MOVQ(a, b))
+		add(x86.ADDQ(a, b))
+		add(x86.MULQ(b))
+		add(x86.XCHGQ(a, b))
+		add(x86.MOVQ(b, operand.Mem{Base: a}))
+		add(x86.VPADDD(coll.XMM(), coll.XMM(), coll.XMM()))
+	}
+	text := func(rs []reg.Register) string {
+		var xs []string
+		for _, r := range rs {
+			xs = append(xs, fmt.Sprintf("%s/%d", r.Asm(), r.Size()))
+		}
+		return strings.Join(xs, " ")
+	}
+	for pass, get := range []func(*ir.Instruction) []reg.Register{(*ir.Instruction).OutputRegisters, (*ir.Instruction).InputRegisters} {
+		what := []string{"OutputRegisters", "InputRegisters"}[pass]
+		held := make([][]reg.Register, len(is))
+		snap := make([]string, len(is))
+		for j, i := range is {
+			held[j] = get(i)
+			snap[j] = text(held[j])
+		}
+		for j := range held {
+			held[j] = append(held[j], reg.RSP) // the caller extends its own copy
+		}
+		bad := 0
+		for j, i := range is {
+			n := len(held[j]) - 1
+			if got := text(held[j][:n]); (got != snap[j] || text(get(i)) != snap[j]) && bad < 3 {
+				bad++
+				o.Plan.GoViolations = append(o.Plan.GoViolations, GoViolation{Key: "registers:held-list-changed", Desc: fmt.Sprintf("%s of instruction %d (`%s`) was [%s]; after the caller appended a register to the lists it holds for the other instructions the held list reads [%s] and a new call gives [%s]", what, j, instrLine(i), snap[j], got, text(get(i))), Replay: map[string]any{"instruction": instrLine(i), "position": j, "accessor": what}})
+			}
+		}
+	}
+	o.AddCase(Case{Key: "registers:held-lists", Desc: fmt.Sprintf("read and write sets of %d instructions held at once, each extended by the caller", len(is)), Input: map[string]any{"instructions": len(is)}, Nontrivial: true})
 }
